@@ -1,27 +1,170 @@
-//! C08 — not built yet (stub so that the binary links; `./check C08` reports INFRA until replaced).
+//! C08 — type annotations are optional and never change the generated code
+//! (metamorphic: annotation subsets of one GenAST program).
+use crate::common::*;
 use arbitrary::Unstructured;
-use vcore::{Check, Labels, Plan, Tier, Verdict};
+use serde::{Deserialize, Serialize};
+use syltmodel::gen::{Gen, GenCfg};
+use syltmodel::print::{Choices, Plan as SurfacePlan};
+use vcore::{compile, Check, Labels, Outcome, Plan, Project, Stats, Step, Tape, Tier, Verdict};
 
-pub struct Stub;
-pub const CHECK: Stub = Stub;
-pub fn plan(_t: Tier) -> Plan {
-    Plan::new(1, 16)
+pub struct C08;
+pub const CHECK: C08 = C08;
+pub fn plan(t: Tier) -> Plan {
+    Plan::new(t.pick(3_000, 50_000), t.pick(3000, 4500))
 }
-impl Check for Stub {
-    type Case = u8;
+
+#[derive(Clone, Serialize, Deserialize)]
+pub struct Case {
+    pub prog: syltmodel::ast::Program,
+    /// annotation bit vectors of the random subsets (besides "all" and "none")
+    pub subsets: Vec<Vec<u8>>,
+    #[serde(default)]
+    pub source_all: String,
+}
+
+fn plan_with(bits: Vec<u8>) -> SurfacePlan {
+    let mut p = SurfacePlan::default();
+    p.annot_default = (false, false, false);
+    p.annot = Choices(bits);
+    p
+}
+
+pub fn annot_cfg(t: &mut Tape, thorough: bool) -> GenCfg {
+    let mut cfg = GenCfg::core(thorough);
+    // known finding: an unannotated blob-typed parameter whose function field is called ("Unknown types
+    // cannot be called"); methods are only generated in 20 % of the cases
+    cfg.methods = t.chance(1, 5);
+    cfg
+}
+
+impl Check for C08 {
+    type Case = Case;
     fn id(&self) -> &'static str {
         "C08"
     }
-    fn generate(&self, _u: &mut Unstructured, _tier: Tier) -> Option<u8> {
-        None
+    fn generate(&self, u: &mut Unstructured, tier: Tier) -> Option<Case> {
+        let mut t = Tape::new(u);
+        let cfg = annot_cfg(&mut t, tier == Tier::Thorough);
+        let prog = Gen::new(&mut t, cfg).program();
+        let n = tier.pick(2, 4);
+        let mut subsets = Vec::new();
+        for _ in 0..n {
+            let density = t.below(7) as u32 + 1;
+            let bits: Vec<u8> = (0..400).map(|_| if t.chance(density, 8) { 1 } else { 0 }).collect();
+            subsets.push(bits);
+        }
+        let source_all = render(&prog, &plan_with(vec![1; 400])).text;
+        Some(Case { prog, subsets, source_all })
     }
-    fn evaluate(&self, _case: &u8, _labels: &mut Labels) -> Verdict {
-        Verdict::Discard("stub".into())
+
+    fn evaluate(&self, case: &Case, labels: &mut Labels) -> Verdict {
+        let all = plan_with(vec![1; 2000]);
+        let pall = render(&case.prog, &all);
+        let base = compile(&Project::single(pall.text.clone()));
+        let lua_all = match &base {
+            Outcome::Accepted(b) => b.clone(),
+            Outcome::Rejected { errors, .. } => {
+                labels.add(format!("all-annotated-rejected:{}:{}", errors[0].kind, errors[0].sub));
+                return Verdict::Discard("fully-annotated-rejected".into());
+            }
+            Outcome::Panicked { .. } => return Verdict::Discard("compiler-panicked".into()),
+        };
+        labels.add("accepted");
+        let sites = pall.sites.annot;
+        if pall.sites.annot_in_closure_or_recursive > 0 {
+            labels.add("site-in-closure");
+        }
+        let mut variants: Vec<(String, SurfacePlan)> = vec![("none".into(), plan_with(Vec::new()))];
+        for (i, b) in case.subsets.iter().enumerate() {
+            variants.push((format!("subset{}", i), plan_with(b.clone())));
+        }
+        let mut distinct_subsets = std::collections::BTreeSet::new();
+        for (name, plan) in &variants {
+            let p = render(&case.prog, plan);
+            distinct_subsets.insert(p.annot_taken.clone());
+            let out = compile(&Project::single(p.text.clone()));
+            match &out {
+                Outcome::Accepted(b) => {
+                    if *b != lua_all {
+                        let sa = String::from_utf8_lossy(&lua_all).to_string();
+                        let sb = String::from_utf8_lossy(b).to_string();
+                        let la: Vec<&str> = sa.lines().collect();
+                        let lb: Vec<&str> = sb.lines().collect();
+                        let mut first = 0;
+                        while first < la.len().min(lb.len()) && la[first] == lb[first] {
+                            first += 1;
+                        }
+                        return Verdict::Violation {
+                            signature: "C08/bytes-differ".into(),
+                            detail: format!(
+                                "variant {} compiles to different Lua than the fully annotated program (chunk line {}: {:?} vs {:?})\n--- fully annotated ---\n{}\n--- variant ---\n{}",
+                                name,
+                                first + 1,
+                                la.get(first),
+                                lb.get(first),
+                                pall.text,
+                                p.text
+                            ),
+                        };
+                    }
+                }
+                Outcome::Rejected { errors, .. } => {
+                    let what = message_class(&errors[0].message);
+                    return Verdict::Violation {
+                        signature: format!("C08/rejected-when-erased/{}:{}:{}", errors[0].kind, errors[0].sub, what.trim()),
+                        detail: format!(
+                            "the fully annotated program is accepted, but with the annotation subset `{}` it is rejected: {}\n--- fully annotated ---\n{}\n--- variant ---\n{}",
+                            name,
+                            out.short(),
+                            pall.text,
+                            p.text
+                        ),
+                    };
+                }
+                Outcome::Panicked { .. } => return Verdict::Discard("compiler-panicked".into()),
+            }
+        }
+        Verdict::Pass { nontrivial: sites >= 3 && distinct_subsets.len() >= 2 && pall.sites.annot_in_closure_or_recursive > 0 }
+    }
+
+    fn simplify_at(&self, case: &Case, idx: usize) -> Step<Case> {
+        let pc = ProgCase { prog: case.prog.clone(), plan: SurfacePlan::default(), source: String::new() };
+        match shrink_step(&pc, idx) {
+            Step::End => Step::End,
+            Step::Skip => Step::Skip,
+            Step::Candidate(p) => {
+                let source_all = render(&p.prog, &plan_with(vec![1; 400])).text;
+                Step::Candidate(Case { prog: p.prog, subsets: case.subsets.clone(), source_all })
+            }
+        }
+    }
+    fn sample(&self, case: &Case) -> serde_json::Value {
+        vcore::truncate_value(
+            serde_json::json!({"fully_annotated": render(&case.prog, &plan_with(vec![1; 2000])).text, "erased": render(&case.prog, &plan_with(Vec::new())).text}),
+            1800,
+        )
     }
     fn rule(&self) -> String {
-        "stub".into()
+        "cases: one random well-typed GenAST program rendered with different subsets of its annotation sites (variable definitions, \
+         parameters of non-function type, return types): all sites, no site, and 2 (quick) / 4 (thorough) random subsets of random \
+         density. Oracle: if the fully annotated rendering is accepted, every variant is accepted and emits byte-identical Lua. \
+         non-trivial = >= 3 sites, at least two distinct subsets among the variants, and a site inside a closure (function literal \
+         nested in a function); distinct by case hash"
+            .into()
     }
-    fn health(&self, _s: &vcore::Stats) -> Result<(), String> {
-        Err("check not built yet".into())
+    fn assumptions(&self) -> Vec<String> {
+        vec!["function-typed parameters are always annotated (the property's annotation sites are 'parameters of non-function type')".into()]
+    }
+    fn health(&self, s: &Stats) -> Result<(), String> {
+        if s.evaluations < 200 {
+            return Ok(());
+        }
+        if (s.label("accepted") as f64) < 0.5 * s.evaluations as f64 {
+            return Err("fewer than half of the fully annotated programs compile".into());
+        }
+        if s.label("site-in-closure") * 4 < s.evaluations {
+            return Err("annotation sites inside closures are rare".into());
+        }
+        Ok(())
     }
 }
